@@ -33,7 +33,7 @@ Grid(f) ==
           ELSE { Num(L.hi, 1), Num(2 * L.hi + 1, 2), Num(L.hi * 10, 1) })
 Values(key) ==
   IF key \in Leaves0 /\ FieldOf(key) \in Limited /\ IsDetectorLeaf(key) THEN Grid(FieldOf(key))
-  ELSE { Num(3, 1), Num(5, 2), Txt("str:zz"), Txt("list:[1, 2]") }
+  ELSE { Num(3, 1), Num(5, 2), Num(0, 1), Txt("str:zz"), Txt("list:[1, 2]"), Txt("list:[0, 5]"), Txt("list:[[0, 1], [2, 0]]") }
 
 Paths == {"sweep", "override", "setattr", "construct", "yaml"}
 MCNext ==
